@@ -155,6 +155,11 @@ func vfGSParams(name string) GossipSubParams {
 	case "d2og":
 		p.D, p.Dlo, p.Dhi, p.Dscore, p.Dout = 2, 1, 3, 1, 0
 		p.OpportunisticGraftTicks = 1
+	case "d2ih":
+		// a per-heartbeat IWANT budget that takes several honoured IHAVEs to use up
+		p.D, p.Dlo, p.Dhi, p.Dscore, p.Dout = 2, 1, 3, 1, 0
+		p.MaxIHaveLength = 3
+		p.MaxIHaveMessages = 5
 	case "d4og":
 		// over-subscription cut and opportunistic grafting in the same heartbeat, Dscore well below D
 		p.D, p.Dlo, p.Dhi, p.Dscore, p.Dout = 4, 2, 5, 1, 0
